@@ -19,7 +19,15 @@ MANIFEST = {
             "{load, unprotect, protect, completion of the i-th pending RPC}, i.e. every interleaving of async calls at await granularity. Theorems (coq/Properties/C10.v): invariant "
             "(every cached envelope is conforming for its triple) preserved by every event; every completed call derives the true chain key (transparency, termination); stored positions "
             "never decrease; a covered position is served without an RPC. Tie: kernels + differential runs of the real sync and async API (symbolic crypto, counting reference DC, RPC "
-            "completion order controlled by the harness) against the extracted model on enumerated and random histories.",
+            "completion order controlled by the harness) against the extracted model on enumerated and random histories. "
+            "Proved for an arbitrary key type/KDF/DC oracle and a ground-truth root key map (29 theorems, all closed): C10_inv_init/_load/_get_key/_store_key/_unprotect_finish/_protect_finish, "
+            "C10_inv_step (every event, only loads constrained), C10_inv_reachable; C10_get_sound; C10_protection_envelope_not_stored (the L1-key-less envelope protect builds is not conforming "
+            "but never reaches the cache); C10_step_outcomes, C10_transparent (every completed call in every reachable world used the MS-GKDI chain key of the position it names: no error, no "
+            "OutOfFuel), per-step forms naming the root key and SD (C10_unprotect_served_step, C10_protect_served_step, C10_unprotect_rpc_step), the atomic sync API (C10_unprotect_sync, "
+            "C10_protect_sync, C10_same_as_fresh, C10_sync_is_async_*); C10_monotone_step, C10_monotone; C10_load_serves, C10_store_serves, C10_no_repeat_rpc (once served, every later "
+            "unprotect / protect-naming-the-root-key at or before that position on the triple adds no pending RPC and has o_rpcs = 0). The kernels enter only through C10_kernels and "
+            "C10_root_envelope_wins. Examples: the reference DC meets both DC hypotheses for every key type; a toy interleaved history; a wrong root key gives a wrong key; a conforming reply "
+            "without the L2 key at L2 = 31 makes protect use the empty key (why the DC hypothesis has that clause; D13/C17).",
     "note": "Loads are of true root keys and the DC is conforming (hypotheses of the theorems, built that way in the harness). CPython's single-threaded event loop makes await points the only interleaving points; OS threads sharing a cache are outside the model.",
     "technique": "Coq proof (state-machine invariant by induction over event histories) + history/interleaving correspondence",
 }
